@@ -885,6 +885,10 @@ func simplifyCFG(f *ssa.Function) {
 			finishFunc(f)
 			progress = true
 		}
+		if !progress && mergeCopiedLocals(f) {
+			finishFunc(f)
+			progress = true
+		}
 		if !progress && dropDeadPure(f) {
 			finishFunc(f)
 			progress = true
@@ -980,6 +984,165 @@ func forwardLocalStores(f *ssa.Function) bool {
 		}
 	}
 	return changed
+}
+
+// mergeCopiedLocals: a local aggregate A whose every assignment is a whole
+// copy `*A = *B` of one other local B, itself assigned once (a result
+// handed from an expanded helper's variable to the caller's), is replaced
+// by B: after the copy the two hold the same value and neither changes.
+func mergeCopiedLocals(f *ssa.Function) bool {
+	for _, b0 := range f.Blocks {
+		for _, in0 := range b0.Instrs {
+			a, ok := in0.(*ssa.Alloc)
+			if !ok || a.Referrers() == nil {
+				continue
+			}
+			if _, isStruct := a.Type().Underlying().(*types.Pointer).Elem().Underlying().(*types.Struct); !isStruct {
+				continue
+			}
+			var copies []*ssa.Store
+			var uses []ssa.Instruction
+			var src *ssa.Alloc
+			okA := true
+			fieldStored := func(x *ssa.Alloc) bool {
+				// a store into (a field of) the aggregate other than a whole assignment
+				var walk func(v ssa.Value, depth int) bool
+				walk = func(v ssa.Value, depth int) bool {
+					refs := v.Referrers()
+					if refs == nil || depth > 3 {
+						return false
+					}
+					for _, r := range *refs {
+						switch y := r.(type) {
+						case *ssa.FieldAddr:
+							if walk(y, depth+1) {
+								return true
+							}
+						case *ssa.Store:
+							if y.Addr == v && depth > 0 {
+								return true
+							}
+							if y.Val == v {
+								return true // address escapes
+							}
+						case *ssa.UnOp, *ssa.DebugRef:
+						default:
+							if depth > 0 || r != nil {
+								if _, isLoad := r.(*ssa.UnOp); !isLoad {
+									return true // passed to a call, captured, …
+								}
+							}
+						}
+					}
+					return false
+				}
+				return walk(x, 0)
+			}
+			for _, r := range *a.Referrers() {
+				switch x := r.(type) {
+				case *ssa.Store:
+					if x.Addr != ssa.Value(a) {
+						okA = false
+						break
+					}
+					ld, isLoad := x.Val.(*ssa.UnOp)
+					if !isLoad || ld.Op != token.MUL {
+						okA = false
+						break
+					}
+					s, isAlloc := ld.X.(*ssa.Alloc)
+					if !isAlloc || s == a || (src != nil && s != src) {
+						okA = false
+						break
+					}
+					src = s
+					copies = append(copies, x)
+				case *ssa.DebugRef:
+				default:
+					uses = append(uses, r)
+				}
+			}
+			if !okA || src == nil || len(copies) == 0 || fieldStored(a) || fieldStored(src) {
+				continue
+			}
+			// the source is assigned exactly once, before every copy
+			var srcStore *ssa.Store
+			n := 0
+			for _, r := range *src.Referrers() {
+				if st, isSt := r.(*ssa.Store); isSt && st.Addr == ssa.Value(src) {
+					srcStore = st
+					n++
+				}
+			}
+			if n != 1 {
+				continue
+			}
+			good := true
+			for _, cp := range copies {
+				if !instrDominates(srcStore, cp) {
+					good = false
+				}
+			}
+			// every use of A comes after a copy, and no path leads from the
+			// source's assignment to a use of A without passing a copy
+			copyBlock := map[*ssa.BasicBlock]bool{}
+			for _, cp := range copies {
+				copyBlock[cp.Block()] = true
+			}
+			for _, u := range uses {
+				dom := false
+				for _, cp := range copies {
+					if instrDominates(cp, u) {
+						dom = true
+					}
+				}
+				if !dom {
+					good = false
+				}
+			}
+			if good {
+				seen := map[*ssa.BasicBlock]bool{}
+				st := append([]*ssa.BasicBlock{}, srcStore.Block().Succs...)
+				if copyBlock[srcStore.Block()] {
+					st = nil
+				}
+				for len(st) > 0 && good {
+					x := st[len(st)-1]
+					st = st[:len(st)-1]
+					if seen[x] || copyBlock[x] {
+						continue
+					}
+					seen[x] = true
+					for _, u := range uses {
+						if u.Block() == x {
+							good = false
+						}
+					}
+					st = append(st, x.Succs...)
+				}
+			}
+			if !good {
+				continue
+			}
+			// replace A by the source and drop the copies
+			replaceUses(f, a, src)
+			drop := map[ssa.Instruction]bool{ssa.Instruction(a): true}
+			for _, cp := range copies {
+				drop[cp] = true
+			}
+			for _, b := range f.Blocks {
+				var out []ssa.Instruction
+				for _, in := range b.Instrs {
+					if !drop[in] {
+						out = append(out, in)
+					}
+				}
+				b.Instrs = out
+			}
+			return true
+		}
+	}
+	return false
 }
 
 // threadOnly applies jump threading (and the clean-up it needs) to a
